@@ -196,9 +196,23 @@ func (g *G) genStruct(c *objCase, o genOpts, depth int) *TD {
 	}
 	t := &TD{k: "st", n: id}
 	var sf []reflect.StructField
+	// sometimes: a map with transformed struct keys and a plain string-keyed map side by side (sibling
+	// field values are served by one slab row, one after the other)
+	sibs := -1
+	if o.transforms && !wide && !o.jsonSafe && g.chance(0.06) {
+		nf += 2
+		sibs = g.intn(nf - 1)
+	}
 	for i := 0; i < nf; i++ {
 		var ft *TD
-		if o.embedded && g.chance(0.2) {
+		if sibs >= 0 && (i == sibs || i == sibs+1) {
+			el := &TD{k: "i", rt: primKinds["i"]}
+			kt := &TD{k: "s", rt: primKinds["s"]}
+			if i == sibs {
+				kt = c.zooTransform(16, o)
+			}
+			ft = &TD{k: "mp", key: kt, elem: el, rt: reflect.MapOf(kt.rt, el.rt)}
+		} else if o.embedded && g.chance(0.2) {
 			// a field holding a zoo struct by value or by pointer: routes may pass through it
 			zs := c.zooStructEntry(20, []string{"r"})
 			if g.chance(0.5) {
